@@ -18,8 +18,8 @@ theorem single_eq {w n : Nat} {a : List Nat} (ha : a.length = nrBlocks w n) (hk 
   match a, ha with
   | [x], _ => simp [blk]
 
-/-- `operator+=`: value and canonical form, every limb width except the multi-block `uint64_t` carry drop -/
-theorem add_spec {w n : Nat} (hw : 0 < w) (hn : 0 < n) (h64 : w ≠ 64 ∨ nrBlocks w n = 1) {a b : List Nat}
+/-- `operator+=`: value and canonical form, every limb width (the `uint64_t` branch recovers the carry from the wrap-around) -/
+theorem add_spec {w n : Nat} (hw : 0 < w) (hn : 0 < n) {a b : List Nat}
     (ha : Shape w n a) (hb : Shape w n b) :
     Canon w n (add w n a b) ∧ toNat w (add w n a b) = (toNat w a + toNat w b) % 2 ^ n := by
   unfold add
@@ -33,12 +33,12 @@ theorem add_spec {w n : Nat} (hw : 0 < w) (hn : 0 < n) (h64 : w ≠ 64 ∨ nrBlo
     have hd : 2 ^ n ∣ 2 ^ w := by have := pow_dvd_storage hw hn; rwa [hk, Nat.mul_one] at this
     exact Nat.mod_mod_of_dvd _ hd
   · rw [if_neg hk]
-    have hd : (w == 64) = false := by
-      rcases h64 with h | h
-      · simpa using h
-      · exact absurd h hk
-    rw [hd]
     have hlen : a.length = b.length := by rw [ha.1, hb.1]
+    have hd : addLoop w (w == 64) 0 a b = addLoop w false 0 a b := by
+      cases (w == 64)
+      · rfl
+      · exact addLoop_u64_eq w 0 a b (by omega) ha.2 hb.2
+    rw [hd]
     have hsh : Shape w n (addLoop w false 0 a b) := ⟨by rw [addLoop_length _ _ _ _ _ hlen]; exact ha.1, addLoop_wf _ _ _ _ _⟩
     refine ⟨canon_of_mask hw hn hsh, ?_⟩
     rw [toNat_maskMSU hw hn hsh.2 hsh.1, toNat_addLoop w 0 a b hlen, ha.1, Nat.zero_add]
@@ -65,49 +65,49 @@ theorem ofSigned_one (hn : 0 < n) : ofSigned n 1 = 1 := by
   rw [Nat.mod_eq_of_lt (Nat.one_lt_two_pow (by omega))] at this
   simpa using this
 
-theorem neg_spec (hw : 0 < w) (hn : 0 < n) (h64 : w ≠ 64 ∨ nrBlocks w n = 1) {a : List Nat} (ha : Shape w n a) :
+theorem neg_spec (hw : 0 < w) (hn : 0 < n) {a : List Nat} (ha : Shape w n a) :
     Canon w n (neg w n a) ∧ toNat w (neg w n a) = (2 ^ n - toNat w a % 2 ^ n) % 2 ^ n := by
   obtain ⟨hf, hfv⟩ := flip_spec hw hn ha
   obtain ⟨h1, h1v⟩ := convertSigned_spec (w := w) hw hn 1
-  obtain ⟨hc, hv⟩ := add_spec hw hn h64 hf.shape h1.shape
+  obtain ⟨hc, hv⟩ := add_spec hw hn hf.shape h1.shape
   refine ⟨hc, ?_⟩
   unfold neg
   rw [hv, hfv, h1v, ofSigned_one hn]
   have := Nat.mod_lt (toNat w a) (Nat.two_pow_pos n)
   congr 1; omega
 
-theorem inc_spec (hw : 0 < w) (hn : 0 < n) (h64 : w ≠ 64 ∨ nrBlocks w n = 1) {a : List Nat} (ha : Shape w n a) :
+theorem inc_spec (hw : 0 < w) (hn : 0 < n) {a : List Nat} (ha : Shape w n a) :
     Canon w n (inc w n a) ∧ toNat w (inc w n a) = (toNat w a + 1) % 2 ^ n := by
   obtain ⟨h1, h1v⟩ := convertSigned_spec (w := w) hw hn 1
-  obtain ⟨hc, hv⟩ := add_spec hw hn h64 ha h1.shape
+  obtain ⟨hc, hv⟩ := add_spec hw hn ha h1.shape
   obtain ⟨hm, hmv⟩ := mask_canon hw hn hc
   refine ⟨hm, ?_⟩
   unfold inc
   rw [hmv, hv, h1v, ofSigned_one hn]
 
-theorem twosC_spec (hw : 0 < w) (hn : 0 < n) (h64 : w ≠ 64 ∨ nrBlocks w n = 1) {a : List Nat} (ha : Shape w n a) :
+theorem twosC_spec (hw : 0 < w) (hn : 0 < n) {a : List Nat} (ha : Shape w n a) :
     Canon w n (twosC w n a) ∧ toNat w (twosC w n a) = (2 ^ n - toNat w a % 2 ^ n) % 2 ^ n := by
   obtain ⟨hf, hfv⟩ := flip_spec hw hn ha
-  obtain ⟨hc, hv⟩ := inc_spec hw hn h64 hf.shape
+  obtain ⟨hc, hv⟩ := inc_spec hw hn hf.shape
   refine ⟨hc, ?_⟩
   unfold twosC
   rw [hv, hfv]
   have := Nat.mod_lt (toNat w a) (Nat.two_pow_pos n)
   congr 1; omega
 
-theorem sub_spec (hw : 0 < w) (hn : 0 < n) (h64 : w ≠ 64 ∨ nrBlocks w n = 1) {a b : List Nat}
+theorem sub_spec (hw : 0 < w) (hn : 0 < n) {a b : List Nat}
     (ha : Shape w n a) (hb : Shape w n b) :
     Canon w n (sub w n a b) ∧ toNat w (sub w n a b) = (toNat w a + (2 ^ n - toNat w b % 2 ^ n)) % 2 ^ n := by
-  obtain ⟨ht, htv⟩ := twosC_spec hw hn h64 hb
-  obtain ⟨hc, hv⟩ := add_spec hw hn h64 ha ht.shape
+  obtain ⟨ht, htv⟩ := twosC_spec hw hn hb
+  obtain ⟨hc, hv⟩ := add_spec hw hn ha ht.shape
   refine ⟨hc, ?_⟩
   unfold sub
   rw [hv, htv, Nat.add_mod_mod]
 
-theorem dec_spec (hw : 0 < w) (hn : 0 < n) (h64 : w ≠ 64 ∨ nrBlocks w n = 1) {a : List Nat} (ha : Shape w n a) :
+theorem dec_spec (hw : 0 < w) (hn : 0 < n) {a : List Nat} (ha : Shape w n a) :
     Canon w n (dec w n a) ∧ toNat w (dec w n a) = (toNat w a + (2 ^ n - 1)) % 2 ^ n := by
   obtain ⟨h1, h1v⟩ := convertSigned_spec (w := w) hw hn 1
-  obtain ⟨hc, hv⟩ := sub_spec hw hn h64 ha h1.shape
+  obtain ⟨hc, hv⟩ := sub_spec hw hn ha h1.shape
   obtain ⟨hm, hmv⟩ := mask_canon hw hn hc
   refine ⟨hm, ?_⟩
   unfold dec
@@ -185,10 +185,10 @@ theorem bitcopy_spec {n : Nat} (hw : 0 < w) (hn : 0 < n) {a : List Nat} (ha : Wf
   rw [toNat_maskMSU hw hn hsh0.2 hsh0.1, toNat_mapRange hw ha, Nat.mod_mod_of_dvd _ (pow_dvd_storage hw hn)]
 
 /-- `operator<` is the order of the signed values -/
-theorem lt_spec (hw : 0 < w) (hn : 0 < n) (h64 : w ≠ 64 ∨ nrBlocks w n = 1) {a b : List Nat}
+theorem lt_spec (hw : 0 < w) (hn : 0 < n) {a b : List Nat}
     (ha : Canon w n a) (hb : Canon w n b) :
     lt w n a b = decide (toSigned n (toNat w a) < toSigned n (toNat w b)) := by
-  obtain ⟨hd, hdv⟩ := sub_spec hw hn h64 ha.shape hb.shape
+  obtain ⟨hd, hdv⟩ := sub_spec hw hn ha.shape hb.shape
   have hsa := sign_canon hw hn ha
   have hsb := sign_canon hw hn hb
   have hsd := sign_canon hw hn hd
@@ -222,16 +222,16 @@ theorem convertSigned_zero (hw : 0 < w) (hn : 0 < n) : Canon w n (convertSigned 
   refine ⟨h, ?_⟩
   rw [hv]; simp [ofSigned]
 
-theorem isneg_spec (hw : 0 < w) (hn : 0 < n) (h64 : w ≠ 64 ∨ nrBlocks w n = 1) {a : List Nat} (ha : Canon w n a) :
+theorem isneg_spec (hw : 0 < w) (hn : 0 < n) {a : List Nat} (ha : Canon w n a) :
     isneg w n a = decide (toSigned n (toNat w a) < 0) := by
   obtain ⟨hz, hzv⟩ := convertSigned_zero (w := w) hw hn
   unfold isneg
-  rw [lt_spec hw hn h64 ha hz, hzv]
+  rw [lt_spec hw hn ha hz, hzv]
   have : toSigned n 0 = 0 := by unfold toSigned; simp
   rw [this]
 
 /-- sign-magnitude split used by `operator*=` and `idiv`: widen by one bit, negate when negative -/
-theorem absval_spec (hw : 0 < w) (hn : 0 < n) (h64 : w ≠ 64 ∨ nrBlocks w (n + 1) = 1) {a : List Nat} (ha : Canon w n a) :
+theorem absval_spec (hw : 0 < w) (hn : 0 < n) {a : List Nat} (ha : Canon w n a) :
     let base := resize w (n + 1) n a
     let base' := if isneg w (n + 1) base then twosC w (n + 1) base else base
     isneg w (n + 1) base = decide (toSigned n (toNat w a) < 0) ∧
@@ -249,7 +249,7 @@ theorem absval_spec (hw : 0 < w) (hn : 0 < n) (h64 : w ≠ 64 ∨ nrBlocks w (n 
     · rw [Nat.add_sub_cancel]; omega
     · rw [Nat.add_sub_cancel]; omega
   have hneg : isneg w (n + 1) base = decide (toSigned n (toNat w a) < 0) := by
-    rw [isneg_spec hw (by omega) h64 hb, hfit]
+    rw [isneg_spec hw (by omega) hb, hfit]
   refine ⟨hneg, ?_⟩
   show Canon w (n + 1) (if isneg w (n + 1) base then twosC w (n + 1) base else base) ∧
     ((toNat w (if isneg w (n + 1) base then twosC w (n + 1) base else base) : Nat) : Int) = |toSigned n (toNat w a)|
@@ -260,7 +260,7 @@ theorem absval_spec (hw : 0 < w) (hn : 0 < n) (h64 : w ≠ 64 ∨ nrBlocks w (n 
     rw [hbv]; exact modEq_ofSigned _ _
   by_cases hxn : x < 0
   · rw [decide_eq_true hxn, if_pos rfl]
-    obtain ⟨ht, htv⟩ := twosC_spec hw (by omega : 0 < n + 1) h64 hb.shape
+    obtain ⟨ht, htv⟩ := twosC_spec hw (by omega : 0 < n + 1) hb.shape
     refine ⟨ht, ?_⟩
     rw [abs_of_neg hxn]
     -- the stored pattern of base is x + 2^(n+1)
@@ -309,8 +309,10 @@ theorem abs_mul_sign (x y : Int) : |x| * |y| = if decide (x < 0) != decide (y < 
     have hy' : 0 ≤ y := by omega
     simp [hx, hy, abs_of_nonneg hx', abs_of_nonneg hy']
 
-/-- `operator*=`: sign-magnitude schoolbook product = product modulo 2^n -/
-theorem mul_spec (hw : 0 < w) (hn : 0 < n) (h64 : w ≠ 64 ∨ nrBlocks w n = 1) {a b : List Nat}
+/-- `operator*=`: sign-magnitude schoolbook product = product modulo 2^n.  About the MODEL for every `w`; the model's `mulLoop`
+    keeps `segment` in ℕ, which is what the C++ 64-bit accumulator does only when `a_i·b_j + r + carry` fits 64 bits, i.e. for
+    limbs of at most 32 bits or a single block — `C08_mul` states that restriction (`C08_MulSupported`). -/
+theorem mul_spec (hw : 0 < w) (hn : 0 < n) {a b : List Nat}
     (ha : Canon w n a) (hb : Canon w n b) :
     Canon w n (mul w n a b) ∧ toNat w (mul w n a b) = (toNat w a * toNat w b) % 2 ^ n := by
   unfold mul
@@ -325,10 +327,8 @@ theorem mul_spec (hw : 0 < w) (hn : 0 < n) (h64 : w ≠ 64 ∨ nrBlocks w n = 1)
     have hd : 2 ^ n ∣ 2 ^ w := by have := pow_dvd_storage hw hn; rwa [hk, Nat.mul_one] at this
     exact Nat.mod_mod_of_dvd _ hd
   · rw [if_neg hk]
-    have hw64 : w ≠ 64 := by rcases h64 with h | h; exact h; exact absurd h hk
-    have h64' : w ≠ 64 ∨ nrBlocks w (n + 1) = 1 := Or.inl hw64
-    obtain ⟨na, ca, va⟩ := absval_spec hw hn h64' ha
-    obtain ⟨nb, cb, vb⟩ := absval_spec hw hn h64' hb
+    obtain ⟨na, ca, va⟩ := absval_spec hw hn ha
+    obtain ⟨nb, cb, vb⟩ := absval_spec hw hn hb
     generalize hx : toSigned n (toNat w a) = x at *
     generalize hy : toSigned n (toNat w b) = y at *
     generalize hA' : (if isneg w (n + 1) (resize w (n + 1) n a) = true then twosC w (n + 1) (resize w (n + 1) n a) else resize w (n + 1) n a) = A' at *
@@ -369,7 +369,7 @@ theorem mul_spec (hw : 0 < w) (hn : 0 < n) (h64 : w ≠ 64 ∨ nrBlocks w n = 1)
     rw [abs_mul_sign] at hRmod
     by_cases hsg : (decide (x < 0) != decide (y < 0)) = true
     · rw [if_pos hsg] at hRmod ⊢
-      obtain ⟨ht, htv⟩ := twosC_spec hw hn h64 hshr
+      obtain ⟨ht, htv⟩ := twosC_spec hw hn hshr
       apply hfinal _ ht.shape
       rw [htv]
       refine (modEq_neg_nat _ _).trans ?_
@@ -401,12 +401,12 @@ theorem eq_spec {a b : List Nat} (ha : Canon w n a) (hb : Canon w n b) :
   · intro h; exact toNat_inj ha.2.1 hb.2.1 (by rw [ha.1, hb.1]) h
 
 /-- the six comparison operators agree with the order of the signed values -/
-theorem cmpMask_spec (hw : 0 < w) (hn : 0 < n) (h64 : w ≠ 64 ∨ nrBlocks w n = 1) {a b : List Nat}
+theorem cmpMask_spec (hw : 0 < w) (hn : 0 < n) {a b : List Nat}
     (ha : Canon w n a) (hb : Canon w n b) :
     cmpMask w n a b = IntegerSpec.cmpMask n (toNat w a) (toNat w b) := by
   unfold cmpMask IntegerSpec.cmpMask IntegerSpec.val
   simp only
-  rw [eq_spec ha hb, lt_spec hw hn h64 ha hb, lt_spec hw hn h64 hb ha]
+  rw [eq_spec ha hb, lt_spec hw hn ha hb, lt_spec hw hn hb ha]
   generalize toSigned n (toNat w a) = x
   generalize toSigned n (toNat w b) = y
   rcases lt_trichotomy x y with h | h | h
@@ -662,39 +662,41 @@ theorem allones_spec (hw : 0 < w) (hn : 0 < n) :
   have := Nat.two_pow_pos n
   exact ⟨⟨by rw [p1, zeros_length], p2, by rw [hv]; omega⟩, hv⟩
 
-/-- `operator>>=` with a count ≥ nbits (repaired code): the sign fill, i.e. still the floor division by 2^s -/
-theorem shrPos_sat_spec (hw : 0 < w) (hn : 0 < n) {a : List Nat} (ha : Canon w n a) {s : Nat} (hsn : n ≤ s) :
-    Canon w n (shrPos w n a s) ∧
-    toNat w (shrPos w n a s) = ofSigned n (toSigned n (toNat w a) / ((2 ^ s : Nat) : Int)) := by
+/-- `operator>>=` with a count ≥ nbits: `setzero()` — canonical zero whatever the sign (defect D8 for negative values) -/
+theorem shrPos_ge_spec (hn : 0 < n) {a : List Nat} (ha : Canon w n a) {s : Nat} (hsn : n ≤ s) :
+    Canon w n (shrPos w n a s) ∧ toNat w (shrPos w n a s) = 0 := by
   unfold shrPos
-  rw [if_pos (by omega), ha.1, sign_neg hw hn ha]
-  obtain ⟨r1, r2⟩ := toSigned_range hn (toNat w a)
-  have hle : M2 (n - 1) ≤ ((2 ^ s : Nat) : Int) := by
-    unfold M2; exact_mod_cast Nat.pow_le_pow_right (by omega) (by omega)
-  have hD : (0 : Int) < ((2 ^ s : Nat) : Int) := by exact_mod_cast Nat.two_pow_pos s
-  by_cases hx : toSigned n (toNat w a) < 0
-  · rw [decide_eq_true hx, if_pos rfl]
-    obtain ⟨hc, hv⟩ := allones_spec (w := w) hw hn
-    refine ⟨hc, ?_⟩
-    have hq : toSigned n (toNat w a) / ((2 ^ s : Nat) : Int) = -1 := by
-      have := (Int.ediv_emod_unique (a := toSigned n (toNat w a)) (q := -1) (r := toSigned n (toNat w a) + ((2 ^ s : Nat) : Int)) hD).mpr
-        ⟨by ring, by omega, by omega⟩
-      exact this.1
-    rw [hv, hq]
-    have h1 := Nat.two_pow_pos n
-    have hlt : 2 ^ n - 1 < 2 ^ n := by omega
-    refine eq_ofSigned_of_modEq hlt ?_
-    rw [Int.modEq_iff_dvd]
-    exact ⟨-1, by unfold M2; rw [Nat.cast_sub h1]; push_cast; ring⟩
-  · rw [decide_eq_false hx, if_neg (by simp)]
-    obtain ⟨hz, hzv⟩ := zeros_canon (w := w) hn
-    refine ⟨hz, ?_⟩
-    rw [hzv, Int.ediv_eq_zero_of_lt (by omega) (by omega)]
-    simp [ofSigned]
+  rw [if_pos (by omega), ha.1]
+  exact zeros_canon hn
 
-/-- shifts with a signed count, every count: left shifts are the ring operation `a·2^k`, right shifts (negative `k`)
-    the floor division by 2^|k| (arithmetic shift, saturating to the sign fill from nbits on) -/
-theorem shl_spec (hw : 0 < w) (hn : 0 < n) {a : List Nat} (ha : Canon w n a) (k : Int) :
+/-- the value of a shift with a signed count, for EVERY count, as the code computes it: `a·2^k` wrapped for k > 0; for a right
+    shift by `s = −k` the floor division by 2^s while `s < nbits`, and 0 from nbits on (for negative values the arithmetic
+    shift would be −1 there: defect D8).  The right-hand side does not mention the limb width. -/
+theorem shl_int_spec (hw : 0 < w) (hn : 0 < n) {a : List Nat} (ha : Canon w n a) (k : Int) :
+    Canon w n (shl w n a k) ∧
+    toNat w (shl w n a k) =
+      (if k = 0 then toNat w a
+       else if k < 0 then
+         (if (-k).toNat < n then ofSigned n (toSigned n (toNat w a) / ((2 ^ (-k).toNat : Nat) : Int)) else 0)
+       else (toNat w a * 2 ^ k.toNat) % 2 ^ n) := by
+  unfold shl
+  by_cases h0 : k = 0
+  · rw [if_pos h0, if_pos h0]; exact ⟨ha, rfl⟩
+  · rw [if_neg h0, if_neg h0]
+    by_cases hneg : k < 0
+    · rw [if_pos hneg, if_pos hneg]
+      by_cases hlt : (-k).toNat < n
+      · rw [if_pos hlt]
+        exact shrPos_spec hw hn ha (by omega) hlt
+      · rw [if_neg hlt]
+        exact shrPos_ge_spec hn ha (by omega)
+    · rw [if_neg hneg, if_neg hneg]
+      exact shlPos_spec hw hn ha (by omega)
+
+/-- shifts with a signed count. Left shifts are the ring operation `a·2^k`; right shifts (negative `k`) are the
+    floor division, provided the count stays below nbits or the value is non-negative (defect D8 otherwise). -/
+theorem shl_spec (hw : 0 < w) (hn : 0 < n) {a : List Nat} (ha : Canon w n a) (k : Int)
+    (hg : 0 ≤ k ∨ -k < n ∨ 0 ≤ toSigned n (toNat w a)) :
     Canon w n (shl w n a k) ∧ toNat w (shl w n a k) = IntegerSpec.shl n (toNat w a) k := by
   unfold IntegerSpec.shl IntegerSpec.wrap IntegerSpec.val IntegerSpec.shlZ shl
   by_cases h0 : k = 0
@@ -707,7 +709,20 @@ theorem shl_spec (hw : 0 < w) (hn : 0 < n) {a : List Nat} (ha : Canon w n a) (k 
       have hs : 0 < (-k).toNat := by omega
       by_cases hlt : (-k).toNat < n
       · exact shrPos_spec hw hn ha hs hlt
-      · exact shrPos_sat_spec hw hn ha (by omega)
+      · -- count ≥ nbits: the code zeroes the value; correct for non-negative values only
+        have hx : 0 ≤ toSigned n (toNat w a) := by
+          rcases hg with h | h | h
+          · omega
+          · omega
+          · exact h
+        obtain ⟨hz, hzv⟩ := shrPos_ge_spec (w := w) hn ha (s := (-k).toNat) (by omega)
+        refine ⟨hz, ?_⟩
+        rw [hzv]
+        obtain ⟨_, r2⟩ := toSigned_range hn (toNat w a)
+        have hle : M2 (n - 1) ≤ ((2 ^ (-k).toNat : Nat) : Int) := by
+          unfold M2; exact_mod_cast Nat.pow_le_pow_right (by omega) (by omega)
+        rw [Int.ediv_eq_zero_of_lt hx (by omega)]
+        simp [ofSigned]
     · rw [if_neg hneg, if_pos (by omega)]
       have hs : 0 < k.toNat := by omega
       obtain ⟨hc, hv⟩ := shlPos_spec hw hn ha hs
@@ -718,11 +733,12 @@ theorem shl_spec (hw : 0 < w) (hn : 0 < n) {a : List Nat} (ha : Canon w n a) (k 
       push_cast
       exact (modEq_toSigned n (toNat w a)).symm.mul (Int.ModEq.refl _)
 
-theorem shr_spec (hw : 0 < w) (hn : 0 < n) {a : List Nat} (ha : Canon w n a) (k : Int) :
+theorem shr_spec (hw : 0 < w) (hn : 0 < n) {a : List Nat} (ha : Canon w n a) (k : Int)
+    (hg : k ≤ 0 ∨ k < n ∨ 0 ≤ toSigned n (toNat w a)) :
     Canon w n (shr w n a k) ∧ toNat w (shr w n a k) = IntegerSpec.shr n (toNat w a) k := by
   rw [shr_eq_shl_neg]
   unfold IntegerSpec.shr
-  have := shl_spec hw hn ha (-k)
+  have := shl_spec hw hn ha (-k) (by rcases hg with h | h | h; exact Or.inl (by omega); exact Or.inr (Or.inl (by omega)); exact Or.inr (Or.inr h))
   unfold IntegerSpec.shl at this
   exact this
 
@@ -732,7 +748,7 @@ theorem toSigned_small {N v : Nat} (hN : 0 < N) (h : v < 2 ^ (N - 1)) : toSigned
 
 theorem shr_one_small (hw : 0 < w) (hn : 0 < n) {s : List Nat} (hs : Canon w (n + 1) s) (hlt : toNat w s < 2 ^ n) :
     Canon w (n + 1) (shr w (n + 1) s 1) ∧ toNat w (shr w (n + 1) s 1) = toNat w s / 2 := by
-  obtain ⟨hc, hv⟩ := shr_spec hw (by omega : 0 < n + 1) hs 1
+  obtain ⟨hc, hv⟩ := shr_spec hw (by omega : 0 < n + 1) hs 1 (Or.inr (Or.inl (by omega)))
   refine ⟨hc, ?_⟩
   rw [hv]
   unfold IntegerSpec.shr IntegerSpec.wrap IntegerSpec.val IntegerSpec.shlZ
@@ -744,7 +760,7 @@ theorem shr_one_small (hw : 0 < w) (hn : 0 < n) {s : List Nat} (hs : Canon w (n 
   rw [this, ofSigned_natCast, Nat.mod_eq_of_lt]
   exact Nat.lt_of_le_of_lt (Nat.div_le_self _ _) hs.2.2
 
-theorem idivStep_spec (hw : 0 < w) (hn : 0 < n) (h64N : w ≠ 64 ∨ nrBlocks w (n + 1) = 1) {A B : Nat} (hB : 0 < B) (hA : A < 2 ^ n)
+theorem idivStep_spec (hw : 0 < w) (hn : 0 < n) {A B : Nat} (hB : 0 < B) (hA : A < 2 ^ n)
     (i : Nat) (acc sb q : List Nat) (hacc : Canon w (n + 1) acc) (hsb : Canon w (n + 1) sb) (hq : Canon w n q) (hi : i < n)
     (hsbv : toNat w sb = B * 2 ^ i) (haccv : toNat w acc < B * 2 ^ (i + 1)) (hsbl : B * 2 ^ i < 2 ^ n)
     (hdec : A = toNat w q * B + toNat w acc) (hqz : toNat w q % 2 ^ (i + 1) = 0) :
@@ -757,7 +773,7 @@ theorem idivStep_spec (hw : 0 < w) (hn : 0 < n) (h64N : w ≠ 64 ∨ nrBlocks w 
   obtain ⟨hs', hs'v⟩ := shr_one_small hw hn hsb hsbn
   rw [hsbv] at hs'v
   have hlt : lt w (n + 1) acc sb = decide (toNat w acc < toNat w sb) := by
-    rw [lt_spec hw hN h64N hacc hsb, toSigned_small hN (by rw [Nat.add_sub_cancel]; exact haccn),
+    rw [lt_spec hw hN hacc hsb, toSigned_small hN (by rw [Nat.add_sub_cancel]; exact haccn),
       toSigned_small hN (by rw [Nat.add_sub_cancel]; exact hsbn)]
     simp
   have hqi : i / w < q.length := by
@@ -781,7 +797,7 @@ theorem idivStep_spec (hw : 0 < w) (hn : 0 < n) (h64N : w ≠ 64 ∨ nrBlocks w 
   · -- quotient bit 1
     rw [hlt, decide_eq_false hge]
     simp only [Bool.not_false, if_true]
-    obtain ⟨hd, hdv⟩ := sub_spec hw hN h64N hacc.shape hsb.shape
+    obtain ⟨hd, hdv⟩ := sub_spec hw hN hacc.shape hsb.shape
     have hqv := toNat_setbit_true hw hq.2.1 hqi hqz
     have hsub : toNat w (sub w (n + 1) acc sb) = toNat w acc - toNat w sb := by
       rw [hdv, Nat.mod_eq_of_lt hsb.2.2]
@@ -813,7 +829,7 @@ theorem idivStep_spec (hw : 0 < w) (hn : 0 < n) (h64N : w ≠ 64 ∨ nrBlocks w 
     have hz : toNat w q % 2 ^ i = 0 := by rw [← Nat.mod_mod_of_dvd _ this, hqz]; simp
     rw [Nat.add_mod, hz, Nat.mod_self]; simp
 
-theorem idiv_loop (hw : 0 < w) (hn : 0 < n) (h64N : w ≠ 64 ∨ nrBlocks w (n + 1) = 1) {A B : Nat} (hB : 0 < B) (hA : A < 2 ^ n) :
+theorem idiv_loop (hw : 0 < w) (hn : 0 < n) {A B : Nat} (hB : 0 < B) (hA : A < 2 ^ n) :
     ∀ (i : Nat) (acc sb q : List Nat), Canon w (n + 1) acc → Canon w (n + 1) sb → Canon w n q → i < n →
       toNat w sb = B * 2 ^ i → toNat w acc < B * 2 ^ (i + 1) → B * 2 ^ i < 2 ^ n →
       A = toNat w q * B + toNat w acc → toNat w q % 2 ^ (i + 1) = 0 →
@@ -823,13 +839,13 @@ theorem idiv_loop (hw : 0 < w) (hn : 0 < n) (h64N : w ≠ 64 ∨ nrBlocks w (n +
   induction i with
   | zero =>
     intro acc sb q hacc hsb hq hi hsbv haccv hsbl hdec hqz
-    obtain ⟨acc', sb', q', e, c1, _, c3, _, c5, c6, _⟩ := idivStep_spec hw hn h64N hB hA 0 acc sb q hacc hsb hq hi hsbv haccv hsbl hdec hqz
+    obtain ⟨acc', sb', q', e, c1, _, c3, _, c5, c6, _⟩ := idivStep_spec hw hn hB hA 0 acc sb q hacc hsb hq hi hsbv haccv hsbl hdec hqz
     refine ⟨acc', sb', q', ?_, c1, c3, by simpa using c5, c6⟩
     simp only [List.range_succ, List.range_zero, List.nil_append, List.reverse_cons, List.reverse_nil, List.foldl_cons, List.foldl_nil]
     exact e
   | succ i ih =>
     intro acc sb q hacc hsb hq hi hsbv haccv hsbl hdec hqz
-    obtain ⟨acc', sb', q', e, c1, c2, c3, c4, c5, c6, c7⟩ := idivStep_spec hw hn h64N hB hA (i + 1) acc sb q hacc hsb hq hi hsbv haccv hsbl hdec hqz
+    obtain ⟨acc', sb', q', e, c1, c2, c3, c4, c5, c6, c7⟩ := idivStep_spec hw hn hB hA (i + 1) acc sb q hacc hsb hq hi hsbv haccv hsbl hdec hqz
     have hhalf : B * 2 ^ (i + 1) / 2 = B * 2 ^ i := by
       rw [Nat.pow_succ, ← Nat.mul_assoc, Nat.mul_div_cancel _ (by omega : 0 < 2)]
     rw [hhalf] at c4
@@ -851,7 +867,7 @@ theorem toNat_eq_zero_of_iszero : ∀ {l : List Nat}, iszero l = true → toNat 
     rw [toNat, h.1, this]; simp
 
 /-- the magnitude operand of `idiv`: `bitcopy` into nbits+1 of `a` or `−a` -/
-theorem absOperand_spec (hw : 0 < w) (hn : 0 < n) (h64 : w ≠ 64 ∨ nrBlocks w n = 1) {a : List Nat} (ha : Canon w n a) :
+theorem absOperand_spec (hw : 0 < w) (hn : 0 < n) {a : List Nat} (ha : Canon w n a) :
     Canon w (n + 1) (bitcopy w (n + 1) (if sign w n a then neg w n a else a)) ∧
     ((toNat w (bitcopy w (n + 1) (if sign w n a then neg w n a else a)) : Nat) : Int) = |toSigned n (toNat w a)| ∧
     toNat w (bitcopy w (n + 1) (if sign w n a then neg w n a else a)) < 2 ^ n := by
@@ -862,7 +878,7 @@ theorem absOperand_spec (hw : 0 < w) (hn : 0 < n) (h64 : w ≠ 64 ∨ nrBlocks w
   rw [sign_canon hw hn ha]
   by_cases hs : 2 ^ (n - 1) ≤ toNat w a
   · rw [decide_eq_true hs, if_pos rfl]
-    obtain ⟨hc, hv⟩ := neg_spec hw hn h64 ha.shape
+    obtain ⟨hc, hv⟩ := neg_spec hw hn ha.shape
     obtain ⟨bc, bv⟩ := bitcopy_spec (n := n + 1) hw (by omega) hc.2.1
     rw [Nat.mod_eq_of_lt hA, Nat.mod_eq_of_lt (by omega)] at hv
     rw [hv, Nat.mod_eq_of_lt (by omega)] at bv
@@ -898,7 +914,7 @@ theorem msbPos_eq {l : List Nat} (h : toNat w l ≠ 0) : msbPos w l = ((Nat.log2
   unfold msbPos; simp only; rw [if_neg h]
 
 /-- `idiv`: quotient and remainder of the truncating division of the signed values, wrapped into n bits -/
-theorem idiv_spec (hw : 0 < w) (hn : 0 < n) (h64 : w ≠ 64 ∨ nrBlocks w n = 1) (h64N : w ≠ 64 ∨ nrBlocks w (n + 1) = 1)
+theorem idiv_spec (hw : 0 < w) (hn : 0 < n)
     {a b : List Nat} (ha : Canon w n a) (hb : Canon w n b) (hb0 : toNat w b ≠ 0) :
     Canon w n (idiv w n a b).1 ∧ Canon w n (idiv w n a b).2 ∧
     toNat w (idiv w n a b).1 = IntegerSpec.div n (toNat w a) (toNat w b) ∧
@@ -907,8 +923,8 @@ theorem idiv_spec (hw : 0 < w) (hn : 0 < n) (h64 : w ≠ 64 ∨ nrBlocks w n = 1
   have hz : iszero b = false := by
     by_contra h
     exact hb0 (toNat_eq_zero_of_iszero (by simpa using h))
-  obtain ⟨cA, vA, lA⟩ := absOperand_spec hw hn h64 ha
-  obtain ⟨cB, vB, lB⟩ := absOperand_spec hw hn h64 hb
+  obtain ⟨cA, vA, lA⟩ := absOperand_spec hw hn ha
+  obtain ⟨cB, vB, lB⟩ := absOperand_spec hw hn hb
   have hsa := sign_neg hw hn ha
   have hsb := sign_neg hw hn hb
   unfold IntegerSpec.div IntegerSpec.rem IntegerSpec.wrap IntegerSpec.val
@@ -934,7 +950,7 @@ theorem idiv_spec (hw : 0 < w) (hn : 0 < n) (h64 : w ≠ 64 ∨ nrBlocks w n = 1
   rw [← hsa] at hxs
   rw [← hsb] at hys
   have hlt : lt w (n + 1) A' B' = decide (X < Y) := by
-    rw [lt_spec hw hN h64N cA cB, hX, hY, toSigned_small hN (by rw [Nat.add_sub_cancel]; exact lA),
+    rw [lt_spec hw hN cA cB, hX, hY, toSigned_small hN (by rw [Nat.add_sub_cancel]; exact lA),
       toSigned_small hN (by rw [Nat.add_sub_cancel]; exact lB)]
     simp
   have hdivv : Int.tdiv x y = if sign w n a != sign w n b then -((X / Y : Nat) : Int) else ((X / Y : Nat) : Int) := by
@@ -977,7 +993,7 @@ theorem idiv_spec (hw : 0 < w) (hn : 0 < n) (h64 : w ≠ 64 ∨ nrBlocks w n = 1
       omega
     -- the shifted divisor
     rw [hd]
-    obtain ⟨cS, vS⟩ := shl_spec hw hN cB ((dn : Nat) : Int)
+    obtain ⟨cS, vS⟩ := shl_spec hw hN cB ((dn : Nat) : Int) (Or.inl (by omega))
     have vS' : toNat w (shl w (n + 1) B' ((dn : Nat) : Int)) = Y * 2 ^ dn := by
       rw [vS, hY]
       unfold IntegerSpec.shl IntegerSpec.wrap IntegerSpec.val IntegerSpec.shlZ
@@ -986,7 +1002,7 @@ theorem idiv_spec (hw : 0 < w) (hn : 0 < n) (h64 : w ≠ 64 ∨ nrBlocks w n = 1
       exact Nat.lt_of_lt_of_le hsbl (Nat.pow_le_pow_right (by omega) (by omega))
     obtain ⟨hz0, hz0v⟩ := convertSigned_zero (w := w) hw hn
     rw [Int.toNat_natCast]
-    obtain ⟨acc', sb', q', efold, c1, c3, c4, c5⟩ := idiv_loop hw hn h64N hYpos lA dn A' (shl w (n + 1) B' ((dn : Nat) : Int))
+    obtain ⟨acc', sb', q', efold, c1, c3, c4, c5⟩ := idiv_loop hw hn hYpos lA dn A' (shl w (n + 1) B' ((dn : Nat) : Int))
       (convertSigned w n 0) cA cS hz0 (by omega) vS' (by rw [hX]; exact hXlt) hsbl (by rw [hz0v, hX]; simp) (by rw [hz0v]; simp)
     rw [efold]
     simp only
@@ -1010,7 +1026,7 @@ theorem idiv_spec (hw : 0 < w) (hn : 0 < n) (h64 : w ≠ 64 ∨ nrBlocks w n = 1
       rw [hdivv]
       by_cases hs : (sign w n a != sign w n b) = true
       · rw [if_pos hs, if_pos hs]
-        obtain ⟨hc, hv⟩ := neg_spec hw hn h64 c3.shape
+        obtain ⟨hc, hv⟩ := neg_spec hw hn c3.shape
         refine ⟨hc, ?_⟩
         show toNat w (neg w n q') = _
         apply eq_ofSigned_of_modEq hc.2.2
@@ -1021,10 +1037,10 @@ theorem idiv_spec (hw : 0 < w) (hn : 0 < n) (h64 : w ≠ 64 ∨ nrBlocks w n = 1
         rw [ofSigned_natCast, ← hQv, Nat.mod_eq_of_lt c3.2.2]
     have hrfin : Canon w n (if isneg w n a then resize w n (n + 1) (neg w (n + 1) acc') else resize w n (n + 1) acc') ∧
         toNat w (if isneg w n a then resize w n (n + 1) (neg w (n + 1) acc') else resize w n (n + 1) acc') = ofSigned n (Int.tmod x y) := by
-      rw [hmodv, isneg_spec hw hn h64 ha, hx, ← hsa]
+      rw [hmodv, isneg_spec hw hn ha, hx, ← hsa]
       by_cases hs : sign w n a = true
       · rw [if_pos hs, if_pos hs]
-        obtain ⟨hc, hv⟩ := neg_spec hw hN h64N c1.shape
+        obtain ⟨hc, hv⟩ := neg_spec hw hN c1.shape
         obtain ⟨hr, hrv⟩ := resize_spec (n := n) hw hn hN hc
         refine ⟨hr, ?_⟩
         rw [hrv]
@@ -1069,13 +1085,37 @@ theorem single_of_eq {a : List Nat} (ha : Canon w w a) (hw : 0 < w) : a = [blk a
   conv_lhs => rw [e]
   simp [toNat]
 
-/-- `operator/=` and `operator%=`: truncating division of the signed values, wrapped into n bits; the native fast
-    path traps on most-negative / −1 at 32 and 64 bits (`none`) -/
-theorem divrem_spec (hw : 0 < w) (hn : 0 < n) (h64 : w ≠ 64 ∨ nrBlocks w n = 1) {a b : List Nat}
-    (ha : Canon w n a) (hb : Canon w n b) (hb0 : toNat w b ≠ 0)
-    (hnt : ¬ (n = w ∧ 32 ≤ w ∧ toSigned n (toNat w a) = -((2 ^ (n - 1) : Nat) : Int) ∧ toSigned n (toNat w b) = -1)) :
-    ∃ q r, divrem w n a b false = some q ∧ divrem w n a b true = some r ∧ Canon w n q ∧ Canon w n r ∧
-      toNat w q = IntegerSpec.div n (toNat w a) (toNat w b) ∧ toNat w r = IntegerSpec.rem n (toNat w a) (toNat w b) := by
+/-- the native fast path of the exact-fit single block: truncating division of the signed readings, wrapped into the block —
+    for EVERY operand pair: the divisor −1 is negated in the block type (`0 - x`, remainder 0), which is `x tdiv (−1)` wrapped,
+    so the most negative value / −1 wraps to itself instead of reaching the hardware division -/
+theorem nativeDiv_spec {w x y : Nat} (hw : 0 < w) (hx : x < 2 ^ w) (hy : y < 2 ^ w) (rem : Bool) :
+    BB.nativeDiv w x y rem
+      = ofSigned w (if rem then Int.tmod (toSigned w x) (toSigned w y) else Int.tdiv (toSigned w x) (toSigned w y)) := by
+  unfold BB.nativeDiv
+  by_cases h : y = 2 ^ w - 1
+  · have hm1 : toSigned w y = -1 := by
+      rw [toSigned_of_lt hw hy, h]
+      have h1 := Nat.two_pow_pos w
+      have hp : 2 ^ w = 2 ^ (w - 1) * 2 := by rw [← Nat.pow_succ]; congr 1; omega
+      rw [if_neg (by omega), Nat.cast_sub h1]
+      push_cast; ring
+    rw [if_pos (show (y == 2 ^ w - 1) = true by simp [h]), hm1]
+    cases rem
+    · simp only [Bool.false_eq_true, if_false]
+      rw [show (-1 : Int) = -(1 : Int) from rfl, Int.tdiv_neg, Int.tdiv_one, ofSigned_neg, Nat.mod_eq_of_lt hx]
+    · simp only [if_true]
+      rw [show (-1 : Int) = -(1 : Int) from rfl, Int.tmod_neg, Int.tmod_one]
+      have := ofSigned_natCast w 0
+      simpa using this.symm
+  · rw [if_neg (show ¬ ((y == 2 ^ w - 1) = true) by simpa using h)]
+
+/-- `operator/=` and `operator%=`: truncating division of the signed values, wrapped into n bits, for every b ≠ 0 — the native
+    fast path included (`nativeDiv_spec`: most negative / −1 wraps) -/
+theorem divrem_spec (hw : 0 < w) (hn : 0 < n) {a b : List Nat}
+    (ha : Canon w n a) (hb : Canon w n b) (hb0 : toNat w b ≠ 0) :
+    Canon w n (divrem w n a b false) ∧ Canon w n (divrem w n a b true) ∧
+      toNat w (divrem w n a b false) = IntegerSpec.div n (toNat w a) (toNat w b) ∧
+      toNat w (divrem w n a b true) = IntegerSpec.rem n (toNat w a) (toNat w b) := by
   unfold divrem
   by_cases hnw : n = w
   · subst hnw
@@ -1085,16 +1125,12 @@ theorem divrem_spec (hw : 0 < w) (hn : 0 < n) (h64 : w ≠ 64 ∨ nrBlocks w n =
     have hmask : msuMask n n = 2 ^ n - 1 := by
       have hk : nrBlocks n n = 1 := by unfold nrBlocks; rw [Nat.div_eq_of_lt (by omega)]
       unfold msuMask surplus; rw [hk]; simp
+    have hxlt : blk a 0 < 2 ^ n := by rw [← va]; exact ha.2.2
+    have hylt : blk b 0 < 2 ^ n := by rw [← vb]; exact hb.2.2
     have hnone : ∀ rem, BB.nativeDiv n (blk a 0) (blk b 0) rem
-        = some (ofSigned n (if rem then Int.tmod (toSigned n (toNat n a)) (toSigned n (toNat n b)) else Int.tdiv (toSigned n (toNat n a)) (toSigned n (toNat n b)))) := by
+        = ofSigned n (if rem then Int.tmod (toSigned n (toNat n a)) (toSigned n (toNat n b)) else Int.tdiv (toSigned n (toNat n a)) (toSigned n (toNat n b))) := by
       intro rem
-      unfold BB.nativeDiv
-      simp only
-      rw [← va, ← vb]
-      rw [if_neg]
-      intro hc
-      simp only [Bool.and_eq_true, decide_eq_true_eq, beq_iff_eq] at hc
-      exact hnt ⟨rfl, hc.1.1, hc.1.2, hc.2⟩
+      rw [nativeDiv_spec hw hxlt hylt rem, va, vb]
     have hfin : ∀ z : Int, Canon n n [ofSigned n z &&& msuMask n n] ∧ toNat n [ofSigned n z &&& msuMask n n] = ofSigned n z := by
       intro z
       have hlt := ofSigned_lt n z
@@ -1104,25 +1140,12 @@ theorem divrem_spec (hw : 0 < w) (hn : 0 < n) (h64 : w ≠ 64 ∨ nrBlocks w n =
       have hk : nrBlocks n n = 1 := by unfold nrBlocks; rw [Nat.div_eq_of_lt (by omega)]
       refine ⟨⟨by simp [hk], Wf.cons hlt (Wf.nil n), by simp [toNat]; exact hlt⟩, by simp [toNat]⟩
     rw [hnone false, hnone true]
-    refine ⟨_, _, rfl, rfl, (hfin _).1, (hfin _).1, ?_, ?_⟩
+    refine ⟨(hfin _).1, (hfin _).1, ?_, ?_⟩
     · rw [(hfin _).2]; rfl
     · rw [(hfin _).2]; rfl
   · rw [if_neg hnw, if_neg hnw]
-    have h64N : w ≠ 64 ∨ nrBlocks w (n + 1) = 1 := by
-      rcases h64 with h | h
-      · exact Or.inl h
-      · by_cases hw64 : w = 64
-        · right
-          subst hw64
-          -- one uint64_t block and n ≠ 64: n < 64, so n+1 still fits
-          have hlt : n ≤ 64 := by
-            have := nrBlocks_hi (w := 64) (n := n) (by omega) hn
-            rw [h] at this; omega
-          unfold nrBlocks
-          rw [Nat.div_eq_of_lt (by omega)]
-        · exact Or.inl hw64
-    obtain ⟨c1, c2, v1, v2⟩ := idiv_spec hw hn h64 h64N ha hb hb0
-    exact ⟨_, _, rfl, rfl, c1, c2, v1, v2⟩
+    obtain ⟨c1, c2, v1, v2⟩ := idiv_spec hw hn ha hb hb0
+    exact ⟨c1, c2, v1, v2⟩
 
 theorem low64 (hw : 0 < w) (hn : 0 < n) {a : List Nat} (ha : Canon w n a) :
     toNat w (a.take (min (nrBlocks w n - 1) (63 / w) + 1)) % 2 ^ 64 = toNat w a % 2 ^ 64 := by
